@@ -58,7 +58,7 @@ Lemma frame_part_spec p valign trimv rows c fo :
   opt_rows p c fo = Ok rows -> (p = None -> rows = 0) ->
   match frame_part p valign trimv rows c fo with
   | Ok None => trimv = 0
-  | Ok (Some d) => cc d = c /\ cr d = trimv /\ rect d = true /\ 1 <= trimv
+  | Ok (Some d) => cc d = c /\ cr d = trimv /\ rect d = true /\ 1 <= trimv /\ inside d
   | Err e => soft e
   end.
 Proof.
@@ -96,7 +96,7 @@ Proof.
                         then (let* cv := m_render body (SBox c (r - ftm - ht)) (f && (fpart =? 0)) in Ok (Some cv))
                         else Ok None) with
                  | Ok None => ftm + ht = r
-                 | Ok (Some d) => cc d = c /\ cr d = r - ftm - ht /\ rect d = true /\ ftm + ht < r
+                 | Ok (Some d) => cc d = c /\ cr d = r - ftm - ht /\ rect d = true /\ ftm + ht < r /\ inside d
                  | Err e => soft e end).
     { destruct (ftm + ht <? r) eqn:E; [|lia].
       pose proof (g_box body G c (r - ftm - ht) (f && (fpart =? 0)) Hb Hc ltac:(lia)) as B.
@@ -114,7 +114,7 @@ Proof.
     { subst l. destruct head as [h1|], bod as [b1|], foot as [f1|]; cbn;
         repeat match goal with H : _ /\ _ |- _ => destruct H end;
         (split; [try discriminate; try lia|]);
-        (split; [repeat constructor; auto|]); try lia. }
+        (split; [repeat constructor; auto; lia|]); try lia. }
     destruct L as [L1 [L2 L3]].
-    destruct (combine_spec c l L1 L2) as [A [B C]]. fin.
+    destruct (combine_spec c l L1 L2) as [A [B [C D]]]. fin.
 Qed.
